@@ -466,6 +466,15 @@ def part_sensor(ctx, o, c, N):
     o.require(len(params) == 3, '_probe_part no longer has the (processor, part) callback signature')
     part = params[-1]
     S = Series(P, c, N)
+    # the field that keeps the constructor argument `sensing_interval` (a public keyword, so its name is API) -- whatever it is called
+    init_ = P.method(c, '__init__')[1]
+    ifield = None
+    for x in ast.walk(init_):
+        if isinstance(x, ast.Assign) and isinstance(x.value, ast.Name) and x.value.id == 'sensing_interval':
+            for t in x.targets:
+                if is_self_attr(t):
+                    ifield = t.attr
+    o.require(ifield is not None, f'{c.name}.__init__ no longer stores its sensing_interval argument in a field')
 
     def refine(an_, test, truth, st, frame):
         r = cmp_norm(N, test, FrameEnv(frame), True)
@@ -500,7 +509,7 @@ def part_sensor(ctx, o, c, N):
                     v = N.norm(a.value, FrameEnv(n.frame))
                 if v.is_({'self._counter': 1}, -1):
                     st = st.with_flag('dec-twice' if 'dec' in st.flags else 'dec')
-                elif v.is_({'self._probing_interval': 1}):
+                elif v.is_({'self.' + ifield: 1}):
                     st = st.with_flag('reset')
                 else:
                     st = st.with_flag('counter:=' + v.key())
@@ -537,7 +546,7 @@ def part_sensor(ctx, o, c, N):
                        file=c.mod.path, line=fn.lineno, path=res.path_lines(g.exit, st))
     # the interval is the constructor argument; the hook is registered once
     init = P.method(c, '__init__')[1]
-    for s in inv.attr_stores(P, '_probing_interval'):
+    for s in inv.attr_stores(P, ifield):
         o.count()
         if not (s.cls is c and s.func.name == '__init__' and isinstance(s.stmt, ast.Assign) and ast.unparse(s.stmt.value) == 'sensing_interval'):
             o.fail(P, s.ctx, s.stmt, 'the skip interval is not exactly the sensing_interval argument', file=s.mod.path, line=s.line)
